@@ -51,9 +51,11 @@ spec fn arg_fails(args: Seq<Value>, i: int, ctx: ScriptContextRef) -> bool {
 //@ contract Plus::signature
         ensures
             ret is Ok ==> (ret->Ok_0 == Type::Integer && args@.len() >= 2),
+            // accepted ==> every operand has static type Integer (or Any)
+            ret is Ok ==> (sig_arg(args@, 0, ctx, Type::Integer) && sig_arg(args@, 1, ctx, Type::Integer)),
 //@ end
 //@ loop Plus::signature 0
-                    invariant targs@.len() == vf_it.index@,
+                    invariant targs_ok(targs@, args@, vf_it.index@ as int, ctx),
 //@ end
 
 //@ contract Plus::call
@@ -65,6 +67,8 @@ spec fn arg_fails(args: Seq<Value>, i: int, ctx: ScriptContextRef) -> bool {
                 let b = arg_int(args@, 1, ctx)->Some_0;
                 int_result(ret, a + b)
             }),
+            // operands of static type Integer: overflow / division by zero / shift range are the only errors of its own -- never a failed cast
+            (arg_is(args@, 0, ctx, Type::Integer) && arg_is(args@, 1, ctx, Type::Integer) && no_type_err(arg_value(args@, 0, ctx)) && no_type_err(arg_value(args@, 1, ctx))) ==> no_type_err(ret),
 //@ end
 
 // ---------------------------------------------------------------- Minus
@@ -72,9 +76,11 @@ spec fn arg_fails(args: Seq<Value>, i: int, ctx: ScriptContextRef) -> bool {
 //@ contract Minus::signature
         ensures
             ret is Ok ==> (ret->Ok_0 == Type::Integer && args@.len() >= 2),
+            // accepted ==> every operand has static type Integer (or Any)
+            ret is Ok ==> (sig_arg(args@, 0, ctx, Type::Integer) && sig_arg(args@, 1, ctx, Type::Integer)),
 //@ end
 //@ loop Minus::signature 0
-                    invariant targs@.len() == vf_it.index@,
+                    invariant targs_ok(targs@, args@, vf_it.index@ as int, ctx),
 //@ end
 
 //@ contract Minus::call
@@ -86,6 +92,8 @@ spec fn arg_fails(args: Seq<Value>, i: int, ctx: ScriptContextRef) -> bool {
                 let b = arg_int(args@, 1, ctx)->Some_0;
                 int_result(ret, a - b)
             }),
+            // operands of static type Integer: overflow / division by zero / shift range are the only errors of its own -- never a failed cast
+            (arg_is(args@, 0, ctx, Type::Integer) && arg_is(args@, 1, ctx, Type::Integer) && no_type_err(arg_value(args@, 0, ctx)) && no_type_err(arg_value(args@, 1, ctx))) ==> no_type_err(ret),
 //@ end
 
 // ---------------------------------------------------------------- Multiply
@@ -93,9 +101,11 @@ spec fn arg_fails(args: Seq<Value>, i: int, ctx: ScriptContextRef) -> bool {
 //@ contract Multiply::signature
         ensures
             ret is Ok ==> (ret->Ok_0 == Type::Integer && args@.len() >= 2),
+            // accepted ==> every operand has static type Integer (or Any)
+            ret is Ok ==> (sig_arg(args@, 0, ctx, Type::Integer) && sig_arg(args@, 1, ctx, Type::Integer)),
 //@ end
 //@ loop Multiply::signature 0
-                    invariant targs@.len() == vf_it.index@,
+                    invariant targs_ok(targs@, args@, vf_it.index@ as int, ctx),
 //@ end
 
 //@ contract Multiply::call
@@ -107,6 +117,8 @@ spec fn arg_fails(args: Seq<Value>, i: int, ctx: ScriptContextRef) -> bool {
                 let b = arg_int(args@, 1, ctx)->Some_0;
                 int_result(ret, a * b)
             }),
+            // operands of static type Integer: overflow / division by zero / shift range are the only errors of its own -- never a failed cast
+            (arg_is(args@, 0, ctx, Type::Integer) && arg_is(args@, 1, ctx, Type::Integer) && no_type_err(arg_value(args@, 0, ctx)) && no_type_err(arg_value(args@, 1, ctx))) ==> no_type_err(ret),
 //@ end
 
 // ---------------------------------------------------------------- Divide
@@ -114,9 +126,11 @@ spec fn arg_fails(args: Seq<Value>, i: int, ctx: ScriptContextRef) -> bool {
 //@ contract Divide::signature
         ensures
             ret is Ok ==> (ret->Ok_0 == Type::Integer && args@.len() >= 2),
+            // accepted ==> every operand has static type Integer (or Any)
+            ret is Ok ==> (sig_arg(args@, 0, ctx, Type::Integer) && sig_arg(args@, 1, ctx, Type::Integer)),
 //@ end
 //@ loop Divide::signature 0
-                    invariant targs@.len() == vf_it.index@,
+                    invariant targs_ok(targs@, args@, vf_it.index@ as int, ctx),
 //@ end
 
 //@ contract Divide::call
@@ -128,6 +142,8 @@ spec fn arg_fails(args: Seq<Value>, i: int, ctx: ScriptContextRef) -> bool {
                 let b = arg_int(args@, 1, ctx)->Some_0;
                 if b == 0 { ret is Err } else { int_result(ret, rust_div(a as int, b as int)) }
             }),
+            // operands of static type Integer: overflow / division by zero / shift range are the only errors of its own -- never a failed cast
+            (arg_is(args@, 0, ctx, Type::Integer) && arg_is(args@, 1, ctx, Type::Integer) && no_type_err(arg_value(args@, 0, ctx)) && no_type_err(arg_value(args@, 1, ctx))) ==> no_type_err(ret),
 //@ end
 
 // ---------------------------------------------------------------- Mod
@@ -135,9 +151,11 @@ spec fn arg_fails(args: Seq<Value>, i: int, ctx: ScriptContextRef) -> bool {
 //@ contract Mod::signature
         ensures
             ret is Ok ==> (ret->Ok_0 == Type::Integer && args@.len() >= 2),
+            // accepted ==> every operand has static type Integer (or Any)
+            ret is Ok ==> (sig_arg(args@, 0, ctx, Type::Integer) && sig_arg(args@, 1, ctx, Type::Integer)),
 //@ end
 //@ loop Mod::signature 0
-                    invariant targs@.len() == vf_it.index@,
+                    invariant targs_ok(targs@, args@, vf_it.index@ as int, ctx),
 //@ end
 
 //@ contract Mod::call
@@ -149,6 +167,8 @@ spec fn arg_fails(args: Seq<Value>, i: int, ctx: ScriptContextRef) -> bool {
                 let b = arg_int(args@, 1, ctx)->Some_0;
                 (b == 0 ==> ret is Err) && ((b != 0 && !(a == i64::MIN && b == -1)) ==> ret == Ok::<Value, Error>(Value::Integer(rust_rem(a as int, b as int) as i64)))
             }),
+            // operands of static type Integer: overflow / division by zero / shift range are the only errors of its own -- never a failed cast
+            (arg_is(args@, 0, ctx, Type::Integer) && arg_is(args@, 1, ctx, Type::Integer) && no_type_err(arg_value(args@, 0, ctx)) && no_type_err(arg_value(args@, 1, ctx))) ==> no_type_err(ret),
 //@ end
 
 // ---------------------------------------------------------------- BitAnd
@@ -156,9 +176,11 @@ spec fn arg_fails(args: Seq<Value>, i: int, ctx: ScriptContextRef) -> bool {
 //@ contract BitAnd::signature
         ensures
             ret is Ok ==> (ret->Ok_0 == Type::Integer && args@.len() >= 2),
+            // accepted ==> every operand has static type Integer (or Any)
+            ret is Ok ==> (sig_arg(args@, 0, ctx, Type::Integer) && sig_arg(args@, 1, ctx, Type::Integer)),
 //@ end
 //@ loop BitAnd::signature 0
-                    invariant targs@.len() == vf_it.index@,
+                    invariant targs_ok(targs@, args@, vf_it.index@ as int, ctx),
 //@ end
 
 //@ contract BitAnd::call
@@ -170,6 +192,8 @@ spec fn arg_fails(args: Seq<Value>, i: int, ctx: ScriptContextRef) -> bool {
                 let b = arg_int(args@, 1, ctx)->Some_0;
                 ret == Ok::<Value, Error>(Value::Integer(a & b))
             }),
+            // operands of static type Integer: overflow / division by zero / shift range are the only errors of its own -- never a failed cast
+            (arg_is(args@, 0, ctx, Type::Integer) && arg_is(args@, 1, ctx, Type::Integer) && no_type_err(arg_value(args@, 0, ctx)) && no_type_err(arg_value(args@, 1, ctx))) ==> no_type_err(ret),
 //@ end
 
 // ---------------------------------------------------------------- BitOr
@@ -177,9 +201,11 @@ spec fn arg_fails(args: Seq<Value>, i: int, ctx: ScriptContextRef) -> bool {
 //@ contract BitOr::signature
         ensures
             ret is Ok ==> (ret->Ok_0 == Type::Integer && args@.len() >= 2),
+            // accepted ==> every operand has static type Integer (or Any)
+            ret is Ok ==> (sig_arg(args@, 0, ctx, Type::Integer) && sig_arg(args@, 1, ctx, Type::Integer)),
 //@ end
 //@ loop BitOr::signature 0
-                    invariant targs@.len() == vf_it.index@,
+                    invariant targs_ok(targs@, args@, vf_it.index@ as int, ctx),
 //@ end
 
 //@ contract BitOr::call
@@ -191,6 +217,8 @@ spec fn arg_fails(args: Seq<Value>, i: int, ctx: ScriptContextRef) -> bool {
                 let b = arg_int(args@, 1, ctx)->Some_0;
                 ret == Ok::<Value, Error>(Value::Integer(a | b))
             }),
+            // operands of static type Integer: overflow / division by zero / shift range are the only errors of its own -- never a failed cast
+            (arg_is(args@, 0, ctx, Type::Integer) && arg_is(args@, 1, ctx, Type::Integer) && no_type_err(arg_value(args@, 0, ctx)) && no_type_err(arg_value(args@, 1, ctx))) ==> no_type_err(ret),
 //@ end
 
 // ---------------------------------------------------------------- BitXor
@@ -198,9 +226,11 @@ spec fn arg_fails(args: Seq<Value>, i: int, ctx: ScriptContextRef) -> bool {
 //@ contract BitXor::signature
         ensures
             ret is Ok ==> (ret->Ok_0 == Type::Integer && args@.len() >= 2),
+            // accepted ==> every operand has static type Integer (or Any)
+            ret is Ok ==> (sig_arg(args@, 0, ctx, Type::Integer) && sig_arg(args@, 1, ctx, Type::Integer)),
 //@ end
 //@ loop BitXor::signature 0
-                    invariant targs@.len() == vf_it.index@,
+                    invariant targs_ok(targs@, args@, vf_it.index@ as int, ctx),
 //@ end
 
 //@ contract BitXor::call
@@ -212,6 +242,8 @@ spec fn arg_fails(args: Seq<Value>, i: int, ctx: ScriptContextRef) -> bool {
                 let b = arg_int(args@, 1, ctx)->Some_0;
                 ret == Ok::<Value, Error>(Value::Integer(a ^ b))
             }),
+            // operands of static type Integer: overflow / division by zero / shift range are the only errors of its own -- never a failed cast
+            (arg_is(args@, 0, ctx, Type::Integer) && arg_is(args@, 1, ctx, Type::Integer) && no_type_err(arg_value(args@, 0, ctx)) && no_type_err(arg_value(args@, 1, ctx))) ==> no_type_err(ret),
 //@ end
 
 // ---------------------------------------------------------------- ShiftLeft
@@ -219,9 +251,11 @@ spec fn arg_fails(args: Seq<Value>, i: int, ctx: ScriptContextRef) -> bool {
 //@ contract ShiftLeft::signature
         ensures
             ret is Ok ==> (ret->Ok_0 == Type::Integer && args@.len() >= 2),
+            // accepted ==> every operand has static type Integer (or Any)
+            ret is Ok ==> (sig_arg(args@, 0, ctx, Type::Integer) && sig_arg(args@, 1, ctx, Type::Integer)),
 //@ end
 //@ loop ShiftLeft::signature 0
-                    invariant targs@.len() == vf_it.index@,
+                    invariant targs_ok(targs@, args@, vf_it.index@ as int, ctx),
 //@ end
 
 //@ contract ShiftLeft::call
@@ -233,6 +267,8 @@ spec fn arg_fails(args: Seq<Value>, i: int, ctx: ScriptContextRef) -> bool {
                 let b = arg_int(args@, 1, ctx)->Some_0;
                 if 0 <= b < 64 { ret == Ok::<Value, Error>(Value::Integer(a << b)) } else { ret is Err }
             }),
+            // operands of static type Integer: overflow / division by zero / shift range are the only errors of its own -- never a failed cast
+            (arg_is(args@, 0, ctx, Type::Integer) && arg_is(args@, 1, ctx, Type::Integer) && no_type_err(arg_value(args@, 0, ctx)) && no_type_err(arg_value(args@, 1, ctx))) ==> no_type_err(ret),
 //@ end
 
 // ---------------------------------------------------------------- ShiftRight
@@ -240,9 +276,11 @@ spec fn arg_fails(args: Seq<Value>, i: int, ctx: ScriptContextRef) -> bool {
 //@ contract ShiftRight::signature
         ensures
             ret is Ok ==> (ret->Ok_0 == Type::Integer && args@.len() >= 2),
+            // accepted ==> every operand has static type Integer (or Any)
+            ret is Ok ==> (sig_arg(args@, 0, ctx, Type::Integer) && sig_arg(args@, 1, ctx, Type::Integer)),
 //@ end
 //@ loop ShiftRight::signature 0
-                    invariant targs@.len() == vf_it.index@,
+                    invariant targs_ok(targs@, args@, vf_it.index@ as int, ctx),
 //@ end
 
 //@ contract ShiftRight::call
@@ -254,6 +292,8 @@ spec fn arg_fails(args: Seq<Value>, i: int, ctx: ScriptContextRef) -> bool {
                 let b = arg_int(args@, 1, ctx)->Some_0;
                 if 0 <= b < 64 { ret == Ok::<Value, Error>(Value::Integer(a >> b)) } else { ret is Err }
             }),
+            // operands of static type Integer: overflow / division by zero / shift range are the only errors of its own -- never a failed cast
+            (arg_is(args@, 0, ctx, Type::Integer) && arg_is(args@, 1, ctx, Type::Integer) && no_type_err(arg_value(args@, 0, ctx)) && no_type_err(arg_value(args@, 1, ctx))) ==> no_type_err(ret),
 //@ end
 
 // ---------------------------------------------------------------- ShiftRightUnsigned
@@ -261,9 +301,11 @@ spec fn arg_fails(args: Seq<Value>, i: int, ctx: ScriptContextRef) -> bool {
 //@ contract ShiftRightUnsigned::signature
         ensures
             ret is Ok ==> (ret->Ok_0 == Type::Integer && args@.len() >= 2),
+            // accepted ==> every operand has static type Integer (or Any)
+            ret is Ok ==> (sig_arg(args@, 0, ctx, Type::Integer) && sig_arg(args@, 1, ctx, Type::Integer)),
 //@ end
 //@ loop ShiftRightUnsigned::signature 0
-                    invariant targs@.len() == vf_it.index@,
+                    invariant targs_ok(targs@, args@, vf_it.index@ as int, ctx),
 //@ end
 
 //@ contract ShiftRightUnsigned::call
@@ -275,6 +317,8 @@ spec fn arg_fails(args: Seq<Value>, i: int, ctx: ScriptContextRef) -> bool {
                 let b = arg_int(args@, 1, ctx)->Some_0;
                 if 0 <= b < 64 { ret == Ok::<Value, Error>(Value::Integer(((a as u64) >> (b as u64)) as i64)) } else { ret is Err }
             }),
+            // operands of static type Integer: overflow / division by zero / shift range are the only errors of its own -- never a failed cast
+            (arg_is(args@, 0, ctx, Type::Integer) && arg_is(args@, 1, ctx, Type::Integer) && no_type_err(arg_value(args@, 0, ctx)) && no_type_err(arg_value(args@, 1, ctx))) ==> no_type_err(ret),
 //@ end
 
 //@ hint Divide::call after `let b: i64 = b.try_into()?;`
@@ -286,9 +330,11 @@ spec fn arg_fails(args: Seq<Value>, i: int, ctx: ScriptContextRef) -> bool {
 //@ contract Negative::signature
         ensures
             ret is Ok ==> (ret->Ok_0 == Type::Integer && args@.len() >= 1),
+            // accepted ==> every operand has static type Integer (or Any)
+            ret is Ok ==> (sig_arg(args@, 0, ctx, Type::Integer)),
 //@ end
 //@ loop Negative::signature 0
-                    invariant targs@.len() == vf_it.index@,
+                    invariant targs_ok(targs@, args@, vf_it.index@ as int, ctx),
 //@ end
 
 //@ contract Negative::call
@@ -299,6 +345,8 @@ spec fn arg_fails(args: Seq<Value>, i: int, ctx: ScriptContextRef) -> bool {
                 let a = arg_int(args@, 0, ctx)->Some_0;
                 int_result(ret, 0 - a)
             }),
+            // operands of static type Integer: overflow / division by zero / shift range are the only errors of its own -- never a failed cast
+            (arg_is(args@, 0, ctx, Type::Integer) && no_type_err(arg_value(args@, 0, ctx))) ==> no_type_err(ret),
 //@ end
 
 // ---------------------------------------------------------------- BitNot
@@ -306,9 +354,11 @@ spec fn arg_fails(args: Seq<Value>, i: int, ctx: ScriptContextRef) -> bool {
 //@ contract BitNot::signature
         ensures
             ret is Ok ==> (ret->Ok_0 == Type::Integer && args@.len() >= 1),
+            // accepted ==> every operand has static type Integer (or Any)
+            ret is Ok ==> (sig_arg(args@, 0, ctx, Type::Integer)),
 //@ end
 //@ loop BitNot::signature 0
-                    invariant targs@.len() == vf_it.index@,
+                    invariant targs_ok(targs@, args@, vf_it.index@ as int, ctx),
 //@ end
 
 //@ contract BitNot::call
@@ -319,4 +369,6 @@ spec fn arg_fails(args: Seq<Value>, i: int, ctx: ScriptContextRef) -> bool {
                 let a = arg_int(args@, 0, ctx)->Some_0;
                 ret == Ok::<Value, Error>(Value::Integer(!a))
             }),
+            // operands of static type Integer: overflow / division by zero / shift range are the only errors of its own -- never a failed cast
+            (arg_is(args@, 0, ctx, Type::Integer) && no_type_err(arg_value(args@, 0, ctx))) ==> no_type_err(ret),
 //@ end
